@@ -535,11 +535,32 @@ fn apply_single_macro(
             })?;
 
             // Generate macro body into a local array
-            let mut output = Vec::with_capacity(macro_def.tokens.len());
-            for token in &macro_def.tokens {
+            let mut output: Vec<PreprocessToken> = Vec::with_capacity(macro_def.tokens.len());
+            let mut skip_next_concat = false;
+            for (body_index, token) in macro_def.tokens.iter().enumerate() {
                 if let Token::MacroArg(i) = token.0 {
+                    let arg = &args[i as usize];
+                    if arg.iter().all(|t| t.0.is_whitespace()) {
+                        // An empty argument next to a ## acts as a placemarker
+                        // The result of the concat is the other operand - so the argument takes one ## away with it
+                        let last_output = output.iter().rposition(|t| !t.0.is_whitespace());
+                        let next_body = macro_def.tokens[body_index + 1..]
+                            .iter()
+                            .find(|t| !t.0.is_whitespace());
+                        if let Some(pos) = last_output
+                            && output[pos].0 == Token::Concat
+                        {
+                            output.truncate(pos);
+                        } else if let Some(PreprocessToken(Token::Concat, _)) = next_body {
+                            skip_next_concat = true;
+                        }
+                    }
+
                     // If we are a macro arg then replace the token with the argument
-                    output.extend_from_slice(&args[i as usize])
+                    output.extend_from_slice(arg)
+                } else if token.0 == Token::Concat && skip_next_concat {
+                    // The left operand was an empty argument
+                    skip_next_concat = false;
                 } else {
                     // If we are a normal token then copy it across without modification
                     output.push(token.clone());
